@@ -1,17 +1,132 @@
-(* C14 proofs: midpoint for the eight integer types and all values of the
-   documented domain. *)
-From Tetl Require Import Lib.Base C14.Spec C14.Model C14.Arith.
+(* C14 proofs: midpoint for the eight integer types and all values of the documented domain.
+   Step A (generic in the width): the unsigned difference-halving pipeline of the code computes
+     half = (D / 2 + s * 2^(w-1) + s * (D mod 2)) mod 2^w,  D = (b - a) mod 2^w,  s = [b < a],
+   without leaving the range of the (promoted) unsigned type.
+   Step B (per type, small linear problems): a + Int(half) is a + (b - a) / 2 rounded towards a, and the
+   final addition does not overflow. *)
+From Tetl Require Import Lib.Base C14.Spec C14.Model C14.Arith C14.Bits C14.ProofsRot C14.ProofsBit.
 From Coq Require Import ZifyBool.
 Local Open Scope Z_scope.
 Ltac Zify.zify_post_hook ::= Z.to_euclidean_division_equations.
 
+Definition mid_half (w a b : Z) : Z :=
+  let D := (b - a) mod 2 ^ w in
+  let s := if b <? a then 1 else 0 in
+  (D / 2 + s * 2 ^ (w - 1) + s * (D mod 2)) mod 2 ^ w.
+
+(* arithmetic in the unsigned type of width w: exact in int for the narrow types (the operands here are
+   far from the int limits), wrapping for the wide ones; in both cases the value converted back to UInt
+   is the result modulo 2^w *)
+Lemma arith_U_wu w x : W w -> - 2 ^ 30 <= x <= 2 ^ 30 \/ 32 <= w ->
+  exists y, arith (U w) x = Ok y /\ wu w y = x mod 2 ^ w.
+Proof.
+  intros HW Hx. pose proof (W_pos w HW) as Hp.
+  destruct (W_small_big w HW) as [S|B].
+  - exists x. split; [|apply wu_eq; lia].
+    unfold arith. destruct S as [-> | ->]; widths; apply arith_in_signed; try reflexivity; consts; lia.
+  - exists (wu w x). split.
+    + unfold arith. destruct B as [-> | ->]; widths; apply arith_in_unsigned; reflexivity.
+    + rewrite !wu_eq by lia. apply Z.mod_mod. assert (0 < 2 ^ w) by (apply pow2_pos; lia). lia.
+Qed.
+
+Lemma small_bound w x : W w -> 0 <= x <= 2 ^ w -> - 2 ^ 30 <= x <= 2 ^ 30 \/ 32 <= w.
+Proof.
+  intros HW Hx. destruct (W_small_big w HW) as [[-> | ->]|[-> | ->]]; [left|left|right|right]; consts; lia.
+Qed.
+
+Lemma midpoint_stepA t a b : WT t ->
+  midpoint_m t a b = (do r <- arith t (a + cast t (mid_half (bits t) a b)); Ok (cast t r)).
+Proof.
+  intros HT. unfold midpoint_m. set (w := bits t). assert (HW : W w) by exact HT.
+  pose proof (W_pos w HW) as Hp.
+  assert (P : 0 < 2 ^ w) by (apply pow2_pos; lia).
+  assert (Ph : 0 < 2 ^ (w - 1)) by (apply pow2_pos; lia).
+  assert (E2 : 2 ^ w = 2 * 2 ^ (w - 1)) by (rewrite <- Z.pow_succ_r by lia; f_equal; lia).
+  assert (Hwlt : w - 1 < 2 ^ w).
+  { destruct HW as [ -> | [ -> | [ -> | -> ] ] ]; consts; lia. }
+  (* digits - 1 *)
+  rewrite arith_in_signed by (try reflexivity; consts; lia). cbn [rbind].
+  rewrite (wu_small w (w - 1)) by lia.
+  (* diff *)
+  pose proof (wu_range w a ltac:(lia)) as Ra. pose proof (wu_range w b ltac:(lia)) as Rb.
+  destruct (arith_U_wu w (wu w b - wu w a) HW) as (d0 & Hd0 & Hd0w).
+  { destruct (W_small_big w HW) as [[-> | ->]|B]; [left|left|right; destruct B; lia];
+      consts; lia. }
+  rewrite Hd0. cbn [rbind]. rewrite Hd0w.
+  assert (HD : (wu w b - wu w a) mod 2 ^ w = (b - a) mod 2 ^ w).
+  { rewrite !wu_eq by lia. symmetry. apply Zminus_mod. }
+  rewrite HD. set (D := (b - a) mod 2 ^ w).
+  assert (RD : 0 <= D < 2 ^ w) by (apply Z.mod_pos_bound; lia).
+  (* sign *)
+  set (s := if b <? a then 1 else 0).
+  assert (Hs : s = 0 \/ s = 1) by (unfold s; destruct (b <? a); lia).
+  rewrite (wu_small w s) by lia.
+  (* diff / 2 *)
+  rewrite Z.quot_div_nonneg by lia.
+  assert (Rh : 0 <= D / 2 < 2 ^ (w - 1)) by lia.
+  rewrite arith_U by (auto; lia). cbn [rbind].
+  (* sign << shift *)
+  assert (Hshl : shl (U w) s (w - 1) = Ok (s * 2 ^ (w - 1))).
+  { destruct Hs as [-> | ->]; [rewrite shl_zero by (auto; lia) | rewrite shl_one by (auto; lia)]; f_equal; lia. }
+  rewrite Hshl. cbn [rbind].
+  rewrite arith_U by (auto; nia). cbn [rbind].
+  (* + (sign & diff) *)
+  assert (Hland : Z.land s D = s * (D mod 2)).
+  { destruct Hs as [-> | ->]; [rewrite Z.land_0_l | rewrite land_1_l]; lia. }
+  rewrite Hland.
+  destruct (arith_U_wu w (D / 2 + s * 2 ^ (w - 1) + s * (D mod 2)) HW) as (h4 & Hh4 & Hh4w).
+  { apply small_bound; [assumption | nia]. }
+  rewrite Hh4. cbn [rbind]. rewrite Hh4w. reflexivity.
+Qed.
+
+(* the value of half in closed form *)
+Lemma mid_half_ge w a b : 0 < w -> a <= b -> b - a < 2 ^ w -> mid_half w a b = (b - a) / 2.
+Proof.
+  intros Hw L R. unfold mid_half. replace (b <? a) with false by lia.
+  rewrite (Z.mod_small (b - a)) by lia. rewrite Z.mul_0_l, !Z.add_0_r. apply Z.mod_small. lia.
+Qed.
+
+Lemma mid_half_lt w a b : 0 < w -> b < a -> a - b < 2 ^ w ->
+  mid_half w a b = if (a - b) / 2 =? 0 then 0 else 2 ^ w - (a - b) / 2.
+Proof.
+  intros Hw L R. unfold mid_half. replace (b <? a) with true by lia.
+  assert (P : 0 < 2 ^ (w - 1)) by (apply pow2_pos; lia).
+  assert (E2 : 2 ^ w = 2 * 2 ^ (w - 1)) by (rewrite <- Z.pow_succ_r by lia; f_equal; lia).
+  assert (HD : (b - a) mod 2 ^ w = b - a + 2 ^ w).
+  { symmetry. apply (Z.mod_unique_pos _ _ (-1)); lia. }
+  rewrite HD. set (d := a - b) in *. replace (b - a + 2 ^ w) with (2 ^ w - d) by lia.
+  set (p := 2 ^ (w - 1)) in *. rewrite E2.
+  assert (S : (2 * p - d) / 2 + 1 * p + 1 * ((2 * p - d) mod 2) = 2 * p - d / 2) by lia.
+  rewrite S. destruct (Z.eqb_spec (d / 2) 0) as [Z0|NZ].
+  - rewrite Z0, Z.sub_0_r. apply Z.mod_same. lia.
+  - apply Z.mod_small. lia.
+Qed.
+
 Lemma midpoint_ok t : WT t -> forall a b, in_ty t a = true -> in_ty t b = true ->
   midpoint_m t a b = Ok (midpoint_spec a b).
 Proof.
-  intros HT a b Ha Hb.
-  types t HT; range Ha; range Hb; unfold midpoint_m, midpoint_spec, arith; widths;
-    destruct (Z.ltb_spec b a) as [L|L]; consts3; rewrite ?land_1_l, ?Z.land_0_l.
-  all: run.
-  all: try lia; try (f_equal; lia).
-  all: rewrite ?cast_eq, ?wu_eq by (cbn; lia); widths; consts; f_equal; lia.
+  intros HT a b Ha Hb. rewrite midpoint_stepA by assumption. unfold midpoint_spec.
+  destruct (Z.ltb_spec b a) as [L|L].
+  - (* b < a: half = 2^w - (a - b) / 2, i.e. -((a - b) / 2) as an Int *)
+    assert (Q : (b - a) ÷ 2 = - ((a - b) / 2)).
+    { replace (b - a) with (- (a - b)) by lia. rewrite Z.quot_opp_l by lia. rewrite Z.quot_div_nonneg by lia. reflexivity. }
+    rewrite Q. set (q := (a - b) / 2) in *. assert (Hq : 0 <= 2 * q <= a - b) by lia. clearbody q.
+    types t HT; range Ha; range Hb; cbn [bits];
+      (rewrite mid_half_lt by (consts; lia)); consts;
+      (destruct (Z.eqb_spec q 0) as [->|NZ]);
+      unfold arith; widths; rewrite ?cast_eq by (cbn; lia); widths; consts; ifs; try lia;
+      (rewrite ?arith_in_signed by (try reflexivity; consts; lia));
+      (rewrite ?arith_in_unsigned by reflexivity);
+      cbn [rbind bits]; rewrite ?cast_eq, ?wu_eq by (cbn; lia); widths; consts; ifs; try lia; f_equal; lia.
+  - (* a <= b: half = (b - a) / 2 *)
+    rewrite Z.quot_div_nonneg by lia.
+    set (q := (b - a) / 2) in *. assert (Hq : 0 <= 2 * q <= b - a) by lia.
+    assert (Hh : forall w, 0 < w -> b - a < 2 ^ w -> mid_half w a b = q) by (intros; now apply mid_half_ge).
+    clearbody q.
+    types t HT; range Ha; range Hb; cbn [bits];
+      (rewrite Hh by (consts; lia)); clear Hh;
+      unfold arith; widths; rewrite ?cast_eq by (cbn; lia); widths; consts; ifs; try lia;
+      (rewrite ?arith_in_signed by (try reflexivity; consts; lia));
+      (rewrite ?arith_in_unsigned by reflexivity);
+      cbn [rbind bits]; rewrite ?cast_eq, ?wu_eq by (cbn; lia); widths; consts; ifs; try lia; f_equal; lia.
 Qed.
